@@ -162,3 +162,101 @@ PROPS['C02'] = {
     'assumptions': [A_USIZE, A_COW, A_INTO, A_REGEX, A_CHUNKS, A_SPEC, A_TOOLS, A_DEBUG],
     'explanation': 'C02 = five lemmas over the codec specification (every position x every replacement byte; every deletion; every duplication; every adjacent transposition of unequal characters; every proper prefix — each for enc(f) and enc(f)+CRLF, for every frame with <= 255 data bytes), transferred to the real code by the contracts to_bytes == enc, to_bytes_with_newline == enc+CRLF and from_bytes == dec; second sentence: lemma_accepted_is_consistent + contract D.',
 }
+
+VSIGN_FNS = ['flipdot_testing::virtual_sign_bus::VirtualSign::{process_message, query_state, receive_config, send_data, data_chunks_sent, receive_pixels, pixels_complete, show_loaded_page, load_next_page, start_reset, finish_reset, goodbye, flush_pixels, reset} (Kani, per-step from an arbitrary state)',
+             'flipdot_testing::virtual_sign_bus::VirtualSignBus::process_message (Kani, against the contract of the sign step)',
+             'flipdot_core::page::Page::from_bytes, flipdot_core::sign_type::SignType::from_bytes (executed symbolically inside the step)']
+A_VSIGN_BOUND = ('symbolic state bounds of the per-step harnesses: pending buffer of any length 0..=64 with arbitrary contents, 0 or 1 stored page (a 2x8 page), any u32 width/height, '
+                 'any u16 chunk counter, any recorded type; data chunks of every length 0..=255. The step function only appends to / clears / length-compares the buffer and only pushes to / clears the page list, '
+                 'so the bounds are believed immaterial, but that uniformity is argued, not proved')
+A_LOG = 'A-log: the log macros are compiled in but no logger is installed (max_level = Off), so their arguments (incl. Display for Page) are not evaluated'
+
+PROPS['C12'] = {
+    'level': 'proof',
+    'kani': [{'package': 'flipdot-testing', 'harnesses': [
+        H('c12_step_never_panics', covers=6),
+        H('c12_config_block_arbitrary_fields', covers=3),
+        H('c14_bus_isolation_modular_4', covers=4),
+    ]}],
+    'functions': VSIGN_FNS,
+    'assumptions': [A_TOOLS, A_DEBUG, A_VSIGN_BOUND, A_LOG,
+                    'inductive argument: c12_step_never_panics assumes NO invariant on the prior state (Inv = true), so it covers every reachable and unreachable state; every message history is a sequence of such steps',
+                    'bus level: VirtualSignBus::process_message is verified against the contract of the sign step (modular: a stub that behaves like any sign allowed by c13/c14 sign-level obligations), for 1..4 signs'],
+    'explanation': 'C12 = one step from ANY state with ANY message returns normally (all panics, overflow checks, unwraps, index operations are proof obligations of the Kani harness), the configuration block digestion for arbitrary field values, and the bus loop.',
+}
+
+PROPS['C13'] = {
+    'level': 'proof',
+    'kani': [{'package': 'flipdot-testing', 'harnesses': [
+        H('c13_step_refines_spec', covers=8),
+        H('c13_initial_state_satisfies_inv', covers=1),
+    ]}],
+    'functions': VSIGN_FNS,
+    'assumptions': [A_TOOLS, A_DEBUG, A_VSIGN_BOUND, A_LOG,
+                    'spec_step (kani/testing_vsign.rs) is the sign-side protocol state machine written from the protocol description; the harness proves the real step equals it from every state satisfying the inductive invariant inv(), and that inv() is preserved and holds initially',
+                    'inv(): counter hygiene (nothing counted outside a transfer, nothing buffered outside a pixel transfer, except in ReadyToReset after an abandoned transfer), Unconfigured => blank, stored pages have the configured size, no pages in the configuration states'],
+    'explanation': 'C13 = per-step refinement of the documented state machine + inductive invariant, hence every message history. Buffer contents are checked at an arbitrary index (old buffer followed by the chunk; only the chunk after a flush) and a stored page is exactly the buffered bytes (same allocation) with the configured size.',
+}
+
+PROPS['C14'] = {
+    'level': 'proof',
+    'kani': [{'package': 'flipdot-testing', 'harnesses': [
+        H('c14_foreign_and_idle_messages_change_nothing', covers=3),
+        H('c14_bus_isolation_modular_4', covers=4),
+        H('c13_step_refines_spec', covers=8),
+    ]}],
+    'functions': VSIGN_FNS,
+    'assumptions': [A_TOOLS, A_DEBUG, A_VSIGN_BOUND, A_LOG,
+                    'interleavings need no exploration: the sign-level statement is per step from every state satisfying inv(), the bus-level statement is per step for every population of 1..4 signs with pairwise distinct addresses',
+                    'modular step: the bus harness replaces VirtualSign::process_message by its contract (no reply and no change for a foreign address; any reply carrying the own address for an own-addressed message; no reply for unaddressed messages); that contract is what c14_foreign_and_idle_messages_change_nothing and c13_step_refines_spec establish'],
+    'explanation': 'C14 = sign-level frame condition (foreign-addressed messages and unaddressed data on a non-receiving sign change nothing and get no reply) + bus-level delivery/ reply discipline for 1..4 signs.',
+}
+
+PROPS['C19']['kani'].append({'package': 'flipdot-testing', 'harnesses': [H('c19_virtual_sign_derives_dimensions', covers=2), H('c12_config_block_arbitrary_fields', covers=3)]})
+PROPS['C19']['functions'].append('flipdot_testing::virtual_sign_bus::VirtualSign::send_data (configuration branch; Kani)')
+
+PROPS['C20'] = {
+    'level': 'proof',
+    'kani': [{'package': 'flipdot-serial', 'harnesses': [H('c20_configure_port', covers=4), H('c20_serial_sign_bus_try_new', covers=2)]},
+             {'package': 'flipdot-testing', 'harnesses': [H('c20_odk_try_new', covers=2)]}],
+    'functions': ['flipdot_serial::serial_port::configure_port', 'flipdot_serial::SerialSignBus::try_new', 'flipdot_testing::Odk::try_new',
+                  'serial_core::SerialPort::reconfigure (external crate, executed as is by Kani, not assumed)'],
+    'assumptions': [A_TOOLS, A_DEBUG,
+                    'the mock SerialDevice (KPort) models a port whose three device calls (read_settings, write_settings, set_timeout) may each fail independently; prior settings are fully symbolic (11 standard baud rates + BaudOther(any usize), 4 character sizes, 3 parities, 2 stop-bit settings, 3 flow-control modes)'],
+    'explanation': 'Loop-free harnesses over the full product of prior settings and failure placements: complete proofs.',
+}
+
+PROPS['C17'] = {
+    'level': 'other',
+    'kani': [{'package': 'flipdot-testing', 'harnesses': [H('c17_bridge_forwards_exactly', covers=4)]}],
+    'functions': ['flipdot_testing::Odk::process_message (Kani; Frame::read / Frame::write replaced by contract stubs, bus = nondeterministic SignBus)'],
+    'assumptions': [A_TOOLS, A_DEBUG,
+                    'NOT MECHANISED: the end-to-end equivalence "over the wire == directly on the bus" is a two-process, whole-history statement; it is the paper composition of C01 (wire round trip), C04/C05 (message mapping both ways), C16 (serial bus: one frame out, one in iff due) and the bridge contract proved here. Only the bridge contract is a discharged obligation of this check',
+                    'Frame::read / Frame::write are contract stubs (their behaviour on real streams is the subject of C15)'],
+    'explanation': 'Per-call contract of the ODK bridge for every frame read (any address/type/0..=4 data bytes), every bus answer (none / any reply message / error) and a failure at the read or the write: the bus receives exactly the decoding of the frame read; a frame is written back exactly when the bus replied and it is that reply\'s frame; an undecodable line is a Communication error with zero bus calls; a bus error is a Bus error with no write.',
+}
+
+SERIAL_EVENT = [H('c16_c18_event_order_reply_due', covers=4), H('c16_c18_event_order_one_way', covers=2),
+                H('c16_c18_event_order_data', covers=2), H('c16_c18_event_order_unknown', covers=1)]
+A_STUBS = ('callee contracts assumed: Frame::write(port) writes exactly to_bytes_with_newline() of the frame or fails; Frame::read(port) consumes exactly one line and returns its decoding or fails '
+           '(their behaviour on real byte streams is the subject of C15; their codec is C01/C03). In the harness they are contract stubs that append to an event log')
+
+PROPS['C16'] = {
+    'level': 'proof',
+    'kani': [{'package': 'flipdot-serial', 'harnesses': [H('c16_c18_classifiers', covers=5)] + SERIAL_EVENT}],
+    'functions': ['flipdot_serial::serial_sign_bus::{<SerialSignBus<P> as SignBus>::process_message, response_expected, delay_after_send, delay_after_receive} (Kani)',
+                  'flipdot_core::message::{From<Message> for Frame, From<Frame> for Message} (executed symbolically by the same harnesses)'],
+    'assumptions': [A_TOOLS, A_DEBUG, A_STUBS,
+                    'the four event-order harnesses partition the message domain by kind (reply-due / one-way / data / unknown); each is complete on its part: any address / state / operation, data of every length 0..=255, every reply frame with 0..=4 data bytes of any type (known, unknown, in-progress reports), a failure at the write or at the read'],
+    'explanation': 'C16 = response_expected(m) <=> m is Hello/QueryState/RequestOperation (all messages), and the exact event sequence of process_message: exactly one write, first, of Frame::from(message); exactly one read iff a reply is due, and then the reply is Message::from(frame read); write/read failures are returned as errors and nothing follows them.',
+}
+
+PROPS['C18'] = {
+    'level': 'proof',
+    'kani': [{'package': 'flipdot-serial', 'harnesses': [H('c16_c18_classifiers', covers=5)] + SERIAL_EVENT}],
+    'functions': PROPS['C16']['functions'],
+    'assumptions': [A_TOOLS, A_DEBUG, A_STUBS,
+                    'GHOST CLOCK: deductive tools cannot measure time. The clock is advanced only by thread::sleep, which is replaced by a stub that logs its argument; assumed: std::thread::sleep(d) blocks for at least d. Wall-clock scheduling is outside the model',
+                    'under that assumption the event order write . sleep(30ms) . [read . ...] gives >= 30 ms between a data-chunk write and any later port operation (the next message is written by a later call), and read . sleep(100ms) . return gives >= 100 ms between an in-progress report and the return to the caller'],
+    'explanation': 'C18 = delay_after_send(m) == Some(30 ms) <=> m is SendData; delay_after_receive(r) == Some(100 ms) <=> r is ReportState(_, PageLoadInProgress | PageShowInProgress); and these are the only sleeps, placed directly after the write resp. after the read, for every message and every reply.',
+}
